@@ -563,7 +563,9 @@ impl Exec {
                         Some((line, plist("ok", [name(st), name(check), Self::p_events(&evs), ns_s])))
                     }
                     Err(_) => {
-                        self.poisoned = true;
+                        // The copy may be half-updated; generators always `setcopy` before the
+                        // next `applynd`, which rewrites it completely.
+                        let _ = Self::take_events(self.nodes.get(&slot)?);
                         Some((line, p_panic(&take_panic())))
                     }
                 }
